@@ -64,17 +64,26 @@ def gate_filter(hyps, goal):
                 and c.arg(0).decl().name() not in asserted:
             continue
         out.append(c)
-    return out
+    return out if len(out) < len(flat) else hyps
 
 
-def to_smt2(obl):
+def _smt2_of(hyps, goal):
     s = z3.Solver()
-    for h in gate_filter(obl.hyps, obl.goal):
+    for h in hyps:
         s.add(h)
     for a in lit_axioms():
         s.add(a)
-    s.add(z3.Not(obl.goal))
+    s.add(z3.Not(goal))
     return s.to_smt2()
+
+
+def to_smt2(obl):
+    """-> the query text; when the gate filter left hypotheses out, the pair (filtered text, full text): the filtered query may only
+    PROVE (unsat) - a model or `unknown` of a query with fewer hypotheses says nothing, the full query decides then"""
+    filtered = gate_filter(obl.hyps, obl.goal)
+    if filtered is obl.hyps:
+        return _smt2_of(obl.hyps, obl.goal)
+    return (_smt2_of(filtered, obl.goal), _smt2_of(obl.hyps, obl.goal))
 
 
 def _run_z3(smt2, timeout_ms, seed=None):
@@ -130,7 +139,15 @@ def _run_cvc5(smt2, timeout_s):
 
 def _work(item):
     name, smt2, second = item
+    t_pre = 0.0
+    if isinstance(smt2, tuple):
+        # gate-filtered query first: it may only prove; anything else falls through to the full query
+        r0, t_pre, info0 = _run_z3(smt2[0], Z3_TIMEOUT_MS)
+        if r0 == "unsat":
+            return name, "unsat", "z3(gate-filtered hypotheses)", t_pre, "", None
+        smt2 = smt2[1]
     r, t, info = _run_z3(smt2, Z3_TIMEOUT_MS)
+    t += t_pre
     backend = "z3"
     agree = None
     if r in ("unknown", "error"):
